@@ -1,0 +1,29 @@
+// Verification contracts (comment-only, compiled only with the "verif" build tag; read by /verif/govc).
+
+//go:build verif
+// +build verif
+
+package youdb
+
+// The key-value store is outside the modelled heap: its methods do not touch any Go object the callers own.
+// (Durability / atomicity of Put and Batch.Write is a standing assumption, DESIGN §6.6.)
+
+//@ func (Putter).Put
+//@ trusted
+//@ pure
+
+//@ func (Database).Get
+//@ trusted
+//@ pure
+
+//@ func (Database).Has
+//@ trusted
+//@ pure
+
+//@ func (Deleter).Delete
+//@ trusted
+//@ pure
+
+//@ func (Batch).Write
+//@ trusted
+//@ pure
